@@ -53,7 +53,7 @@ def selftest():
 
 def REQUIRED_COVER(tier):
     return ({f'pruned-mask:{m}' for m in range(1, 8)} | {f'ancestor-mask:{m}' for m in range(1, 8)} |
-            {'type:lib', 'type:mproof', 'type:mupdate', 'layers:3', 'route:boc', 'route:boc+hashes', 'update:sides-differ', 'update:sides-equal'})
+            {'type:lib', 'type:mproof', 'type:mupdate', 'layers:3', 'route:boc', 'route:boc+hashes', 'update:sides-differ', 'update:sides-equal', 'twin'})
 
 
 # ------------------------------------------------------------------ terms
@@ -243,7 +243,34 @@ def case_raw_update(rec, mask_old, mask_new, wrap):
         rec.covered('update:sides-differ' if mask_old != mask_new else 'update:sides-equal')
 
 
+def case_twin(rec, mask, first):
+    """an exotic cell (pruned branch with the given mask; mask 0 = library reference) and an ORDINARY cell holding exactly the
+    same bits, side by side under one parent - built ordinary-first and exotic-first (distinct contents per order, so that
+    both orders are 'first' once per process)"""
+    rec.case('twin')
+    args = {'mask': mask, 'first': first}
+    seed = rec.seed
+    if mask:
+        n = bin(mask).count('1')
+        hs = [filler(seed, f'c02t-{first}-{mask}-{i}', 32) for i in range(n)]
+        ds = [int.from_bytes(filler(seed, f'c02td-{first}-{mask}-{i}', 2), 'big') % 1000 for i in range(n)]
+        ex = RC.pruned_raw(mask, hs, ds)
+    else:
+        ex = RC.library(filler(seed, f'c02t-lib-{first}', 32))
+    twin = RC.RCell(ex.bits)
+    # to_lib builds the references of a cell last-to-first
+    kids = (twin, ex) if first == 'exotic' else (ex, twin)
+    t = RC.RCell('0110', kids)
+    rec.state(('twin', mask, first))
+    rec.nontriv(('twin', mask, first))
+    if check_tree(rec, t, 'case_twin', args, 'twin'):
+        rec.covered('twin')
+
+
 def shard_raw(rec):
+    for mask in range(0, 8):
+        for first in ('exotic', 'ordinary'):
+            case_twin(rec, mask, first)
     for a in range(1, 8):
         for b in range(0, 8):
             for wrap in (0, 1, 2, 3):
